@@ -68,7 +68,7 @@ ORIGINS = [
                                #  whichever equal source the process registered first - C04's business, not this property's)
     Con("OXml", SOURCES[4], b"/a/b"),
 ]
-READ_KINDS = 10
+READ_KINDS = 14
 
 
 # ------------------------------------------------------------------------------------------------ histories, validators
@@ -989,6 +989,43 @@ def do_read(run, x, kind):
                     return [self.visit(c) for c in node.get_child_nodes()]
 
             V().visit(x)
+        elif kind == 10:
+            # xpath generators consumed to exhaustion, with and without matches (seeded change C10-6)
+            list(x.findall("//@zz_no_such_field[99]" + type(x).__name__))
+            list(x.findall("//ASTNode"))
+            for ni in x.dfs():
+                list(ni.node.findall("//" + type(x).__name__))
+                break
+            from pyoak.match.xpath import ASTXpath
+
+            xp = ASTXpath("//" + type(x).__name__)
+            t = x.to_tree()
+            for ni in x.dfs():
+                xp.match(t, ni.node)
+            list(xp.findall(x))
+        elif kind == 11:
+            # a transformer that changes nothing: no node is rebuilt, so nothing may happen to any existing node
+            from pyoak.visitor import ASTTransformVisitor
+
+            class TV(ASTTransformVisitor):
+                pass
+
+            TV().transform(x)
+        elif kind == 12:
+            x.to_msgpck()
+            x.to_yaml()
+            x.to_jsonb() if hasattr(x, "to_jsonb") else None
+        elif kind == 13:
+            from pyoak.match.pattern import MultiPatternMatcher, NodeMatcher
+
+            names = sorted({type(ni.node).__name__ for ni in x.dfs()} | {type(x).__name__})
+            mm = MultiPatternMatcher([(f"r{i}", "(" + n + ")") for i, n in enumerate(names)] + [("any", "(*)")])
+            mm.match(x)
+            for ni in x.dfs():
+                mm.match(ni.node)
+            m, _ = NodeMatcher.from_pattern("(" + "|".join(names) + ")")
+            if m is not None:
+                m.match(x)
         else:
             from pyoak.match.pattern import NodeMatcher
 
